@@ -184,7 +184,7 @@ class QfixedImp(float, Qtype):
 
         if len(tl_v) < len(tc_v):
             for x in tc_v[len(tl_v) :]:
-                ex = Or(ex, x)
+                ex = And(ex, Not(x))
 
         return (bool, ex)
 
